@@ -291,6 +291,33 @@ Section BamLoop.
     apply breaches_step. apply (wait_reaches (np - 0)%nat 0%nat); [reflexivity|]. apply B0_bam. apply start_is_bam.
   Qed.
 
+  (* ---- ... and the nodes are left as the premises want them: the run can be followed by the next one *)
+  Definition rest (s : net) : Prop := ShDoneB s /\ benvA (na s) /\ benvB (nb s) /\ 0 < clk s.
+  Lemma B3_fly_env k s : ShFly k s -> S k = np -> benvA (na (step s)) /\ benvB (nb (step s)) /\ 0 < clk (step s).
+  Proof.
+    intros (c & Hc & (Hc0 & Hct) & (Ea & Eb) & Hqa & Hqb & Hk & Hs & Hr & Hev & Hw) E.
+    rewrite (step_b s _ _ Hqb). rewrite Hc.
+    pose proof (hB_bdt (nb s) c (c - iv + tp21_T1) k Eb Hr Hk) as Hh.
+    assert ((S k =? np)%nat = true) as Et by (apply Nat.eqb_eq; exact E). rewrite Et in Hh.
+    destruct Hh as (b' & Hh & Eb' & Hr'). rewrite Hh. cbn [na nb clk].
+    split; [exact Ea|]. split; [exact Eb'|]. lia.
+  Qed.
+  Lemma wait_reaches_rest : forall r k s, (np - k = r)%nat -> ShWait k s -> exists j, rest (steps j s).
+  Proof.
+    induction r as [r IH] using lt_wf_ind. intros k s Hr Hsh.
+    assert (Hk : (k < np)%nat) by (destruct Hsh as (c & _ & _ & _ & _ & _ & Hk & _); exact Hk).
+    pose proof (B2_due k _ (B1_wait k s Hsh)) as Hf.
+    pose proof (B3_fly k _ Hf) as Hn.
+    destruct (S k =? np)%nat eqn:E.
+    - apply Nat.eqb_eq in E. exists 3%nat. cbn [steps]. split; [exact Hn|]. exact (B3_fly_env k _ Hf E).
+    - apply Nat.eqb_neq in E. destruct (IH (np - S k)%nat ltac:(lia) (S k) _ eq_refl Hn) as (j & H).
+      exists (S (S (S j))). exact H.
+  Qed.
+  Theorem bam_closed_loop_rest : exists j, rest (steps j (net_send (net0 A0 B0 t0) dp pf ps prio sa p)).
+  Proof.
+    destruct (wait_reaches_rest (np - 0)%nat 0%nat _ eq_refl (B0_bam _ start_is_bam)) as (j & H). exists (S j). exact H.
+  Qed.
+
   (* ---- the same run with the time of every frame A puts on the wire *)
   Definition treaches (s : net) (L : list (Z * frame)) : Prop := exists j, ShDoneB (steps j s) /\ tlog j s = L.
   Lemma treaches_step s L : treaches (step s) L -> treaches s (newtx s (step s) ++ L).
@@ -378,6 +405,29 @@ Proof.
   intros H1 H2 H3 H4 H5 H6 H7 HA HB pv.
   pose proof (bam_closed_loop_delivers_any prio sa dp pf 255 p t0 A0 B0 H1 H2 (or_introl (conj H3 eq_refl)) H4 H5 H6 H7 HA HB) as H.
   unfold bam_pgn in H. assert ((pf <? 240) = true) as E by lia. rewrite E in H. exact H.
+Qed.
+
+(* the nodes after the run: everything the premises ask for holds again (same packet interval, same listeners and CAs on B, no
+   timers, positive clock), so the theorem applies to the next broadcast *)
+Theorem bam_closed_loop_restores prio sa dp pf ps p t0 A0 B0 :
+  0 <= prio < 8 -> 0 <= sa < 255 -> (0 <= pf < 240 /\ ps = 255) \/ (240 <= pf < 256 /\ 0 <= ps < 256) ->
+  0 <= dp < 2 -> 8 < len p <= 1785 -> 0 < t0 ->
+  0 < n_bam_iv A0 < tp21_T1 ->
+  n_snd A0 = [] /\ n_rcv A0 = [] /\ n_timers A0 = [] ->
+  n_snd B0 = [] /\ n_rcv B0 = [] /\ n_timers B0 = [] ->
+  let pv := bam_pgn dp pf ps in
+  exists j, let s := steps j (net_send (net0 A0 B0 t0) dp pf ps prio sa p) in
+    (qa s = [] /\ qb s = [] /\ 0 < clk s /\
+     evb s = deliveries B0 7 pv sa addr_GLOBAL p /\
+     wab s = tp21_bam sa prio pv (len p) (Z.of_nat (npk (length p)))
+             :: map (fun k => tp21_dt sa addr_GLOBAL (dt_payload p (Z.of_nat k))) (seq 0 (npk (length p)))) /\
+    (n_snd (na s) = [] /\ n_rcv (na s) = [] /\ n_timers (na s) = [] /\ n_bam_iv (na s) = n_bam_iv A0) /\
+    (n_snd (nb s) = [] /\ n_rcv (nb s) = [] /\ n_timers (nb s) = [] /\ n_subs (nb s) = n_subs B0 /\ n_cas (nb s) = n_cas B0).
+Proof.
+  intros H1 H2 H3 H4 H5 H6 H7 HA HB pv.
+  destruct (bam_closed_loop_rest prio sa dp pf ps p t0 A0 B0 H1 H2 H3 H4 H5 H6 H7 HA HB)
+    as (j & (Q1 & Q2 & Q3 & Q4 & Q5 & Q6 & Q7 & Q8) & (Ar & At & Ai) & (Bs & Bt & Bsub & Bcas) & Hc).
+  exists j. cbv zeta. repeat split; assumption.
 Qed.
 
 (* T09.17: the same run with its times: packet k leaves at t0 + (k+1)·iv — consecutive packets of the broadcast are exactly
